@@ -34,6 +34,18 @@ def run(ctx):
                       per_cfg=({2: 8, 3: 5, 4: 2} if q else {2: 40, 3: 30, 4: 10}))
     groups += op_plan(ctx, ['pow'], params=pow_params, dims=(0, 1, 2, 3, 4), max_len={3: 3, 4: 2}, exhaustive2=False,
                       per_cfg=({2: 20, 3: 10, 4: 4} if q else {2: 120, 3: 60, 4: 20}))
+    # larger exponents (a square-and-multiply scheme goes wrong only from |n| = 5 on): generic operands of one or two blades
+    # for positive n, small integer operands for negative n (certificate: x**-n * x**n = 1)
+    for u, d in ((ucfg(sig=[1, 1]), 2), (ucfg(sig=[1, -1]), 2), (ucfg(sig=[1, 1, 1]), 3), (named_ucfg('2DPGA'), 3), (ucfg(sig=[1, 1, 1, -1]), 4)):
+        cases = []
+        for n in ((5, 6, 7, 9, 11, 12) if q else (5, 6, 7, 8, 9, 10, 11, 12, 13, 14)):
+            for _ in range(1 if q else 3):
+                cases.append(('pow', [list(P.random_key_tuple(rng, d, 2, 1))], [n]))
+        for n in ((-3, -5, -6, -9) if q else (-3, -4, -5, -6, -7, -9, -10, -11)):
+            for _ in range(1 if q else 3):
+                k = list(P.random_key_tuple(rng, d, 2, 1))
+                cases.append(('pow', [{'keys': k, 'vals': [rng.choice([1, -1, 2]) for _ in k]}], [n]))
+        groups.append({'u': u, 'opts': {}, 'cases': cases, 'witness': True, 'revisit': 0})
     # grade blocks (single-grade operands are the documented domain of the outer series)
     from plans import config_list
     for d in (3, 4, 5, 6):
